@@ -235,6 +235,10 @@ func c15Run(v *c15Vec) (obs []callRec, herr string) {
 	if relEntry && !strings.HasPrefix(name, "/") && path.Join("/pq/rs", name) != canon {
 		prior("/pq/rs/zpre", name)
 	}
+	// history: the same spelling was first resolved from the ROOT directory (by a root-level referrer)
+	if relEntry && !strings.HasPrefix(name, "/") && v.Depth > 0 && path.Join("/", name) != canon {
+		prior("/zroot", name)
+	}
 	// history: another (directory, name) pair whose plain concatenation reads the same as this one's
 	// ("/a" + "b/x" and "/" + "ab/x"): every pair is resolved on its own
 	if relEntry && !strings.HasPrefix(name, "/") && v.Depth > 0 && v.Entry != "GetTemplate" {
@@ -280,6 +284,14 @@ func c15Run(v *c15Vec) (obs []callRec, herr string) {
 		if err != nil {
 			return nil, "harness: referrer did not load: " + err.Error()
 		}
+		if v.Entry == "includeData" {
+			// history on the same template: the include node has already been executed with another name
+			mem.Set(refDir(v.Depth)+"zdecoy"+v.Exts[0], "D")
+			func() {
+				defer func() { recover() }()
+				t.Execute(io.Discard, nil, "zdecoy")
+			}()
+		}
 		rec.mu.Lock()
 		rec.calls = nil
 		rec.mu.Unlock()
@@ -289,7 +301,7 @@ func c15Run(v *c15Vec) (obs []callRec, herr string) {
 		}()
 	}
 	for _, c := range rec.calls {
-		if strings.Contains(c.Path, "zref") || strings.Contains(c.Path, "zpre") {
+		if strings.Contains(c.Path, "zref") || strings.Contains(c.Path, "zpre") || strings.Contains(c.Path, "zdecoy") || strings.Contains(c.Path, "zroot") {
 			continue
 		}
 		obs = append(obs, c)
